@@ -102,6 +102,12 @@ def make_requests(ctx):
     reqs['bad0'] = [bad, texts[0], bad]
     reqs['bad1'] = [bad2, bad2 + '\nPlant Lifetime, 12\n', texts[1]]
     reqs['missing'] = [None, texts[2], None]
+    # requests on which the simulator gives up through a bare sys.exit() (no exception): the TOUGH2 model without its
+    # executable, a user-provided-profile reservoir whose profile file does not exist
+    quit0 = texts[0] + '\nReservoir Model, 6\n'
+    quit1 = texts[1] + '\nReservoir Model, 5\nReservoir Output File Name, no-such-profile-file.txt\n'
+    reqs['quit0'] = [texts[0], quit0, texts[0] + '\nPlant Lifetime, 17\n', quit0]
+    reqs['quit1'] = [quit1, texts[1], quit1]
     return reqs
 
 
@@ -112,8 +118,8 @@ def make_history(ctx, reqs, n_calls):
     rids = list(reqs)
     # few keys: each history touches 3-5 requests
     keys = rng.sample(rids, min(len(rids), rng.randint(3, 5)))
-    if rng.random() < 0.8 and not any(k.startswith(('bad', 'missing')) for k in keys):
-        keys[-1] = rng.choice(['bad0', 'bad1', 'missing'])
+    if rng.random() < 0.8 and not any(k.startswith(('bad', 'missing', 'quit')) for k in keys):
+        keys[-1] = rng.choice(['bad0', 'bad1', 'missing', 'quit0', 'quit1', 'quit0'])
     version = {k: 0 for k in keys}
     calls = 0
     removed = set()
@@ -176,6 +182,8 @@ def check_history(mon, spec, out, refs, case):
             mon.check('result-is-function-of-input', rec['outcome'] == 'error',
                       mechanism='C08/result-returned-for-a-failing-input', ref_error=ref.get('error'), **wit)
             mon.note('c08-failing-request-observed')
+            if 'exited without' in (ref.get('error') or ''):
+                mon.note('c08-request-ending-in-bare-sys-exit-observed')
             continue
         if rec['outcome'] == 'error':
             mon.bad('result-is-function-of-input', mechanism='C08/valid-input-fails-in-this-history', error=rec.get('error'), **wit)
@@ -245,8 +253,10 @@ def run(ctx):
     ctx.required.update({'result-is-function-of-input': 300, 'cwd-and-argv-restored': 300})
     if not ctx.mon.viols and ctx.mon.notes.get('c08-failing-request-observed', 0) == 0:
         ctx.required['failing-request-observed'] = 1
+    if not ctx.mon.viols and ctx.mon.notes.get('c08-request-ending-in-bare-sys-exit-observed', 0) == 0:
+        ctx.required['request-ending-in-bare-sys-exit-observed'] = 1
     ctx.rule = ('histories of 10-40 GeophiresXClient calls over 3-5 request files drawn from fast configuration families '
-                '(repeats, out-of-range / non-member / missing-file requests, the same path rewritten with different content '
+                '(repeats, out-of-range / non-member / missing-file requests and requests the simulator abandons through a bare sys.exit(), the same path rewritten with different content '
                 'between calls, three clients with caching on/off interleaved, re-used and fresh input-parameter objects, '
                 'changes of working directory and deleted directories), each history in a fresh subprocess under one of 4 '
                 'PYTHONHASHSEED values; the oracle execution F(text) is a single call in its own fresh process; results are '
